@@ -285,23 +285,23 @@ def mtExit (cfg : Cfg α) (s0 : Eval α) (m : MT α) (f g : α) : Bool :=
   decide (stp ≤ stpmin cfg.macheps ∧ (f > ftest ∨ g ≥ gtest)) ||
   decide (f ≤ ftest ∧ absv g ≤ cfg.c2 * (-s0.g))
 
-/-- the rest of the loop body up to the next trial step (morethuente.cpp:189-193, 219-269): stage switch, `dcstep` on the
-    (possibly modified) function, bisection safeguard, new bounds, clamping, the `stp = stx` fallback.
-    The next trial step is `(mtNext …).dc.stp`. -/
-def mtNext (cfg : Cfg α) (s0 : Eval α) (m : MT α) (f g : α) : MT α :=
+/-- morethuente.cpp:219-239: `dcstep` on the function itself or, in stage 1 while the modified function
+    `ψ(t) = φ(t) - φ(0) - ftol·φ'(0)·t` has not yet a non-positive value and non-negative slope, on the modified function -/
+def mtDcstep (cfg : Cfg α) (s0 : Eval α) (m : MT α) (f g : α) (stage1 : Bool) : DC α :=
   let gtest := cfg.c1 * s0.g
   let stp := m.dc.stp
   let ftest := s0.f + stp * gtest
-  let stage1 := if m.stage1 = true ∧ f ≤ ftest ∧ g ≥ 0 then false else m.stage1
-  let dc : DC α :=
-    if stage1 = true ∧ f ≤ m.dc.fx ∧ f > ftest then
-      let d := m.dc
-      let r := dcstep cfg
-        { d with fx := d.fx - d.stx * gtest, fy := d.fy - d.sty * gtest, dx := d.dx - gtest, dy := d.dy - gtest }
-        (f - stp * gtest) (g - gtest) m.stmin m.stmax
-      { r with fx := r.fx + r.stx * gtest, fy := r.fy + r.sty * gtest, dx := r.dx + gtest, dy := r.dy + gtest }
-    else dcstep cfg m.dc f g m.stmin m.stmax
-  -- bisection step / new bounds (morethuente.cpp:242-260)
+  if stage1 = true ∧ f ≤ m.dc.fx ∧ f > ftest then
+    let d := m.dc
+    let r := dcstep cfg
+      { d with fx := d.fx - d.stx * gtest, fy := d.fy - d.sty * gtest, dx := d.dx - gtest, dy := d.dy - gtest }
+      (f - stp * gtest) (g - gtest) m.stmin m.stmax
+    { r with fx := r.fx + r.stx * gtest, fy := r.fy + r.sty * gtest, dx := r.dx + gtest, dy := r.dy + gtest }
+  else dcstep cfg m.dc f g m.stmin m.stmax
+
+/-- morethuente.cpp:241-269 given the outcome `dc` of `dcstep`: bisection safeguard, new bounds `stmin/stmax`, widths,
+    clamping to `[stpmin(), stpmax()]`, and the fallback `stp = stx` when no further progress is possible -/
+def mtBounds (cfg : Cfg α) (m : MT α) (stage1 : Bool) (dc : DC α) : MT α :=
   let stp1 :=
     if dc.brackt then
       if absv (dc.sty - dc.stx) ≥ m.width1 * (66 / 100) then dc.stx + (dc.sty - dc.stx) * (1 / 2) else dc.stp
@@ -315,6 +315,14 @@ def mtNext (cfg : Cfg α) (s0 : Eval α) (m : MT α) (f g : α) : MT α :=
     if (dc.brackt = true ∧ (stp2 ≤ stmin ∨ stp2 ≥ stmax)) ∨ (dc.brackt = true ∧ stmax - stmin ≤ cfg.eps0 * stmax)
     then dc.stx else stp2
   ⟨stage1, { dc with stp := stp3 }, stmin, stmax, width, width1⟩
+
+/-- the rest of the loop body up to the next trial step (morethuente.cpp:189-193, 219-269): stage switch, `dcstep` on the
+    (possibly modified) function, bisection safeguard, new bounds, clamping, the `stp = stx` fallback.
+    The next trial step is `(mtNext …).dc.stp`. -/
+def mtNext (cfg : Cfg α) (s0 : Eval α) (m : MT α) (f g : α) : MT α :=
+  let ftest := s0.f + m.dc.stp * (cfg.c1 * s0.g)
+  let stage1 := if m.stage1 = true ∧ f ≤ ftest ∧ g ≥ 0 then false else m.stage1
+  mtBounds cfg m stage1 (mtDcstep cfg s0 m f g stage1)
 
 /-- morethuente.cpp:187-280, one entry per loop iteration -/
 def morethuente (cfg : Cfg α) (φ : Oracle α) (s0 : Eval α) : Nat → MT α → Ctx α → Res α
